@@ -78,12 +78,14 @@ impl<M: RawMutex + LockName + 'static> MutexCore<M> {
         self.slots.regs(&mut regs);
         let mutex: &'static GenericMutex<M, u64> = self.owner.get();
         let slots = &self.slots;
+        let fair = self.fair;
         self.view = inspect_and_check(
             ctx,
             Shape::List,
             regs,
             &mut |v| mutex.verif_inspect(v),
             &mut |r| slots.node_info(r.slot as usize),
+            &|_, i| i.state == 1 || (i.state == 2 && fair),
         );
         // C02: is_locked() is true exactly while a guard is alive
         let g = self.guards.len();
